@@ -33,8 +33,8 @@ ASSUMPTIONS = [
     "the composition theorems C03_*_partial hold on the sub-grammar delimited by the boolean side conditions in Properties/C03.v; "
     "outside it the agreement is decided by the oracle (Go against the extracted specification) on generated requirements",
     "operator theorems exist for npm (>=, >, <, <=, ^ (every major), ~, = on full release versions, release candidates), for Cargo (the same operators), "
-    "for PyPI (Properties/C03_pypi.v: >=, >, <=, <, ==, != on a final release M.m.p against packaging's Specifier.contains, candidates = final releases with a non-zero release segment; "
-    "NOT ~= and the .* forms, versions with other than three numbers, pre/post/dev bounds, the comma list) and for Maven (Properties/C03_maven.v: the order on dotted-integer versions, "
+    "for PyPI (Properties/C03_pypi.v: >=, >, <=, <, ==, !=, ~= on a final release M.m.p and ==M.m.*, !=M.m.* against packaging's Specifier.contains, candidates = final releases with a non-zero release segment; "
+    "!=0.0.0 and !=0.0.* refuted (unit span, F-C03-1a) and excluded by side condition; NOT versions written with other than three numbers (~=M.m, ==M.*), pre/post/dev bounds, the comma list) and for Maven (Properties/C03_maven.v: the order on dotted-integer versions, "
     "the soft requirement incl. through setRange, one restriction in every bracket form, reversed bounds rejected, the comma list as a union; (,0) refuted; NOT bounds with qualifiers); and-composition (C03_and_partial) and ||-composition (C03_or_partial) for npm only. There are no "
     "theorems for partial versions and prerelease bounds, nor for the step from requirement TEXT to the span calls (except Maven's bare version): there the property rests on the oracle and the correspondence run. "
     "The share of generated requirements inside the region of the theorems is reported (region:* counters); a hit inside it is reported as a divergence",
@@ -44,7 +44,7 @@ MANIFEST = dict(
     category="proof",
     text=("Executable model of tokenizer, operator desugaring (opVersionToSpan), span construction, intersection, canonical "
           "union and matching, with reference specifications of node-semver / Cargo / PEP 440 specifiers / Maven ranges in "
-          "Gallina. Theorems: npm and Cargo: per-operator soundness (>=, >, <, <=, ^, ~, =) on full release versions; PyPI: >=, >, <=, <, ==, != on a final release M.m.p against packaging on final non-zero candidates (not ~= and .*); Maven: order, soft requirement, every bracket form of one restriction, comma list as union on dotted-integer versions (not qualifiers); and-/or-composition for npm only. Per-operator soundness of the produced span against the reference's comparator semantics, the "
+          "Gallina. Theorems: npm and Cargo: per-operator soundness (>=, >, <, <=, ^, ~, =) on full release versions; PyPI: >=, >, <=, <, ==, !=, ~= on a final release M.m.p and ==M.m.*, !=M.m.* against packaging on final non-zero candidates (three-number requirement versions only); Maven: order, soft requirement, every bracket form of one restriction, comma list as union on dotted-integer versions (not qualifiers); and-/or-composition for npm only. Per-operator soundness of the produced span against the reference's comparator semantics, the "
           "prerelease admission rule compared with node's, refuted witnesses for the recorded defects, partial composition on "
           "the stated sub-grammar. Model tied to the code by differential execution; Go's MatchVersion is compared with the "
           "extracted specification on every generated (requirement, candidate) pair, and hits are confirmed against the real tool."),
